@@ -233,3 +233,66 @@ func verifSamePrefix(got, stream []byte) bool {
 	}
 	return true
 }
+
+// C08 / C13 — several inputs are opened, and their formats detected, before
+// any of them is read (that is what the commands do with several files): two
+// sources with different streams go through DecoderFor one after the other,
+// then each selected decoder's reader is drained. Each yields its own stream,
+// whole and once — whatever detection kept of the first input is not disturbed
+// by detecting the second.
+//
+//verif:harness unwind=64 replay=none
+func verif_harness_C08_detect_several_inputs() { verifSeveralInputs() }
+
+// The same harness registered for C13 (several inputs = their union).
+//
+//verif:harness unwind=64 replay=none
+func verif_harness_C13_detect_several_inputs() { verifSeveralInputs() }
+
+func verifSeveralInputs() {
+	if !verif_is_symbolic_run() {
+		return
+	}
+	streams := [][]byte{[]byte("first-input"), []byte("2nd")}
+	var final []io.Reader
+	probe := func(accepts bool) func(io.Reader) Decoder {
+		calls := 0
+		return func(rd io.Reader) Decoder {
+			calls++
+			trial := calls%2 == 1 // per input: one trial, then (if accepted) the selected decoder
+			if !trial {
+				final = append(final, rd)
+			}
+			return func(r *Result) error {
+				if trial {
+					buf := make([]byte, 1+verif_choose("probe_reads", 4))
+					rd.Read(buf)
+					if !accepts {
+						return io.ErrUnexpectedEOF
+					}
+				}
+				return nil
+			}
+		}
+	}
+	fmtIdx := verif_choose("format", 3)
+	verif_stub("github.com/tsenart/vegeta/v12/lib.NewDecoder", probe(fmtIdx == 0))
+	verif_stub("github.com/tsenart/vegeta/v12/lib.NewJSONDecoder", probe(fmtIdx == 1))
+	verif_stub("github.com/tsenart/vegeta/v12/lib.NewCSVDecoder", probe(fmtIdx == 2))
+	for _, s := range streams {
+		verif_assert(DecoderFor(&verifBigSrc{data: s}) != nil, "C08.several.decoder-found")
+	}
+	verif_assert(len(final) == len(streams), "C08.several.one-selected-decoder-per-input")
+	for k := 0; k < len(final) && k < len(streams); k++ {
+		var out []byte
+		buf := make([]byte, 4)
+		for n := 0; n < 16; n++ {
+			m, err := final[k].Read(buf)
+			out = append(out, buf[:m]...)
+			if err != nil {
+				break
+			}
+		}
+		verif_assert(string(out) == string(streams[k]), "C08.several.each-input-yields-its-own-stream")
+	}
+}
